@@ -72,13 +72,38 @@ dev_impl! {
 #[derive(Clone)]
 struct LaxSpec {
     spec: FSpec,
+    /// hand the operation images over as lax terms that still carry pending unifications
+    pending: bool,
+}
+
+/// the same diagram as a lax term in which every hyperedge has its own fresh nodes, unified with
+/// the original ones (pending, not yet quotiented)
+fn exploded(p: &Plain) -> lax::OpenHypergraph<L, L> {
+    let mut f = lax::OpenHypergraph::<L, L>::empty();
+    for l in &p.w {
+        f.new_node(*l);
+    }
+    for e in &p.e {
+        let (_, (s, t)) = f.new_operation(e.l, e.s.iter().map(|v| p.w[*v]).collect(), e.t.iter().map(|v| p.w[*v]).collect());
+        for (fresh, orig) in s.iter().zip(e.s.iter()).chain(t.iter().zip(e.t.iter())) {
+            f.unify(*fresh, lax::NodeId(*orig));
+        }
+    }
+    f.sources = p.s.iter().map(|v| lax::NodeId(*v)).collect();
+    f.targets = p.t.iter().map(|v| lax::NodeId(*v)).collect();
+    f
 }
 impl lax::functor::Functor<L, L, L, L> for LaxSpec {
     fn map_object(&self, o: &L) -> impl ExactSizeIterator<Item = L> {
         self.spec.ob_of(*o).into_iter()
     }
     fn map_operation(&self, a: &L, source: &[L], target: &[L]) -> lax::OpenHypergraph<L, L> {
-        lax::OpenHypergraph::from_strict(B::<VecKind>::to_dev(&self.spec.image(*a, source, target)))
+        let img = self.spec.image(*a, source, target);
+        if self.pending {
+            exploded(&img)
+        } else {
+            lax::OpenHypergraph::from_strict(B::<VecKind>::to_dev(&img))
+        }
     }
     fn map_arrow(&self, f: &lax::OpenHypergraph<L, L>) -> lax::OpenHypergraph<L, L> {
         lax::functor::dyn_functor::define_map_arrow(self, f)
@@ -86,15 +111,20 @@ impl lax::functor::Functor<L, L, L, L> for LaxSpec {
 }
 fn lax_observe(c: &Case) -> Result<Vec<Pair>, String> {
     use lax::functor::Functor as LaxFunctor;
-    let fu = LaxSpec { spec: c.spec.clone() };
+    let fu = LaxSpec { spec: c.spec.clone(), pending: false };
     let lf = lax::OpenHypergraph::<L, L>::from_strict(B::<VecKind>::to_dev(&c.f));
     let r = fu.map_arrow(&lf);
     let p = B::<VecKind>::from_dev(&r.to_strict()).map_err(|e| format!("lax F(f): ill-formed result: {}", e))?;
     let spec = &c.spec;
     let want = c.f.substitute(&|l| spec.ob_of(l), &|l, a, b| spec.image(l, a, b));
+    // the same functor with images that still carry pending unifications, applied to an argument
+    // that carries pending unifications too
+    let fu2 = LaxSpec { spec: c.spec.clone(), pending: true };
+    let r2 = fu2.map_arrow(&exploded(&c.f));
+    let p2 = B::<VecKind>::from_dev(&r2.to_strict()).map_err(|e| format!("lax F(f) with pending unifications: ill-formed result: {}", e))?;
     let id = lax::functor::dyn_functor::Identity.map_arrow(&lf);
     let pid = B::<VecKind>::from_dev(&id.to_strict()).map_err(|e| format!("lax Id(f): ill-formed result: {}", e))?;
-    Ok(vec![("lax-substitution", p, want), ("lax-identity-functor", pid, c.f.clone())])
+    Ok(vec![("lax-substitution", p, want.clone()), ("lax-substitution-with-pending-unifications", p2, want), ("lax-identity-functor", pid, c.f.clone())])
 }
 
 fn judge(ex: &mut Exec, cfg: &str, r: Result<Result<Vec<Pair>, String>, Violation>) -> Result<(), Violation> {
@@ -137,9 +167,9 @@ impl Check for C12 {
     fn generate(r: &mut Rng, tier: Tier) -> Case {
         let mut c = gen::draw_cfg(r, tier);
         // images grow by a factor of up to 3: keep the source diagrams small
-        c.max_extra_nodes = c.max_extra_nodes.min(3);
-        c.max_edges = c.max_edges.min(3);
-        c.max_iface = c.max_iface.min(3);
+        c.max_extra_nodes = c.max_extra_nodes.min(if c.large { 9 } else { 3 });
+        c.max_edges = c.max_edges.min(if c.large { 6 } else { 3 });
+        c.max_iface = c.max_iface.min(if c.large { 5 } else { 3 });
         c.max_arity = c.max_arity.min(3);
         let (f, g) = gen::gen_pair(r, &c);
         let spec = gen_spec(r, c.node_labels);
